@@ -143,7 +143,15 @@ def rewrites(case, rng):
         kw_tuple.update(case["opts"])
         empties_bracket = has(ins + outs, Brk, lambda b: all(isinstance(x, Ell) and x.n == 0 for x in b.items))
         if not empties_bracket:
-            out.append(("ellipsis-written-out", desc, kw_of(case), family.render([map_items(e, rep) for e in ins], [map_items(e, rep) for e in outs], form), kw_long, ident, [], None, op, op))
+            # the implicit output of an element-wise call is chosen on the UN-expanded expressions (an ellipsis counts as
+            # a name of its own, even with zero repetitions): the written-out form states that output explicitly
+            form_long = form
+            skip = False
+            if fam == "elementwise" and form == "implicit-output" and has(ins + outs, Ell, lambda e: e.n == 0):
+                form_long = "explicit"
+                skip = has(ins, Num, lambda x: x.size != 1)  # a literal number cannot be repeated in an explicit output
+            if not skip:
+                out.append(("ellipsis-written-out", desc, kw_of(case), family.render([map_items(e, rep) for e in ins], [map_items(e, rep) for e in outs], form_long), kw_long, ident, [], None, op, op))
         if any(k in ell_bases and not isinstance(v, (tuple, list)) for k, v in case["kwargs"].items()):
             out.append(("scalar-size-for-ellipsis", desc, kw_of(case), desc, kw_tuple, ident, [], None, op, op))
     # R6: nested '->' / ',' <-> top-level distribution
